@@ -613,6 +613,25 @@ fn table_checks(stats: &mut Stats, out: &mut Vec<Violation>) -> usize {
         Err(_) => {}
         Ok(info) => problems.push(format!("a table without (usize, usize, u8) answered {:?} for its name", info)),
     }
+    // the same for a spread of types none of the synthetic tables holds: plain numbers, long and
+    // short arrays of them, standard containers (whatever the host knows about them)
+    macro_rules! must_not_answer {
+        ($($t:ty),* $(,)?) => {$(
+            for kind in 0..3 {
+                let (map, _) = synth_table(kind);
+                let t = StaticTypeResolver::from(map);
+                if let Ok(info) = catch_unwind(AssertUnwindSafe(|| t.type_info::<$t>())) {
+                    problems.push(format!("synthetic table {} does not hold {} but answered {:?} for it", kind, stringify!($t), info));
+                }
+                let name = HostTypeResolver.type_info::<$t>().name;
+                if let Ok(info) = catch_unwind(AssertUnwindSafe(|| t.dynamic_type_info(&name))) {
+                    problems.push(format!("synthetic table {} does not hold {} but answered {:?} for its name", kind, stringify!($t), info));
+                }
+                count += 1;
+            }
+        )*};
+    }
+    must_not_answer!(i8, i16, i32, i128, isize, f32, [u64; 12], [u8; 11], [u32; 17], [f64; 33], [bool; 64], [u16; 2], [char; 4], Option<u8>, Vec<u64>, Box<u32>, (u8, u8), [i64; 3]);
     // custom registrations
     {
         let mut t = StaticTypeResolver::new();
